@@ -3,7 +3,7 @@
 (declare-const u16_1 (_ BitVec 16))
 (declare-const u8_2 (_ BitVec 8))
 (push 1)
-(define-fun t!20 () Bool (= (bvor (bvshl ((_ zero_extend 8) ((_ extract 7 0) (bvlshr u16_1 #x0008))) #x0008) ((_ zero_extend 8) ((_ extract 7 0) u16_1))) u16_1))
-(define-fun t!21 () Bool (not t!20))
-(assert t!21)
+(define-fun t!32 () Bool (= (bvor (bvshl ((_ zero_extend 8) ((_ extract 7 0) (bvlshr u16_1 #x0008))) #x0008) ((_ zero_extend 8) ((_ extract 7 0) u16_1))) u16_1))
+(define-fun t!33 () Bool (not t!32))
+(assert t!33)
 (check-sat)
